@@ -228,7 +228,8 @@ def run_containers(task, seed):
                ("list-of-junk", lambda v: [1, "x", None, ("a",)], False),
                ("bytes-keys", lambda v: {b"Retry-After": v}, False),
                ("nested", lambda v: {"Retry-After": {"Retry-After": v}}, False)]
-    for (sname, mk, must_find), v, where in itertools.product(shapes, values, ["headers", "response"]):
+    for (sname, mk, must_find), v, where in itertools.product(
+            shapes, values, ["headers", "response", "response+empty-dict", "response+empty-list"]):
         e = Exc429("x")
         if where == "headers":
             e.headers = mk(v)
@@ -236,6 +237,10 @@ def run_containers(task, seed):
             r = Resp()
             r.headers = mk(v)
             e.response = r
+            if where == "response+empty-dict":
+                e.headers = {}          # present but empty: the response's headers still count
+            elif where == "response+empty-list":
+                e.headers = []
         res["execs"] += 1
         case = f"{sname} {where} value {show(v)}"
         res["nontrivial"].add(hash(case))
